@@ -13,10 +13,13 @@
 
 //! The index lists all the files in a backup, sorted in apath order.
 
+use std::sync::Arc;
+
 use itertools::Itertools;
 use tracing::{debug, debug_span, error};
 
 use crate::compress::snappy::Decompressor;
+use crate::monitor::Monitor;
 use crate::stats::IndexReadStats;
 use crate::transport::Transport;
 use crate::*;
@@ -153,6 +156,8 @@ impl IndexRead {
             hunks: hunks.into_iter(),
             index: self,
             after: None,
+            next_expected: 0,
+            monitor: None,
         }
     }
 
@@ -163,6 +168,8 @@ impl IndexRead {
             hunks: hunks.into_iter(),
             index: self,
             after: None,
+            next_expected: 0,
+            monitor: None,
         })
     }
 }
@@ -175,6 +182,10 @@ pub struct IndexHunkIter {
     pub index: IndexRead,
     /// If set, yield only entries ordered after this apath.
     after: Option<Apath>,
+    /// The number that the next hunk should have if none are missing.
+    next_expected: u32,
+    /// Where to report hunks that are missing or can't be read; if unset they're logged.
+    monitor: Option<Arc<dyn Monitor>>,
 }
 
 impl IndexHunkIter {
@@ -184,10 +195,33 @@ impl IndexHunkIter {
     pub async fn next(&mut self) -> Option<Vec<IndexEntry>> {
         loop {
             let hunk_number = self.hunks.next()?;
+            if hunk_number > self.next_expected {
+                self.report(Error::InvalidMetadata {
+                    details: format!(
+                        "Index hunks {}..{} are missing from {}",
+                        self.next_expected,
+                        hunk_number,
+                        self.index.transport.url()
+                    ),
+                });
+            }
+            self.next_expected = hunk_number + 1;
             let entries = match self.index.read_hunk(hunk_number).await {
-                Ok(None) => return None,
+                Ok(None) => {
+                    self.report(Error::InvalidMetadata {
+                        details: format!(
+                            "Index hunk {} is missing from {}",
+                            hunk_number,
+                            self.index.transport.url()
+                        ),
+                    });
+                    continue;
+                }
                 Ok(Some(entries)) => entries,
-                Err(_err) => {
+                Err(err) => {
+                    // The entries in this hunk are lost; say so rather than silently
+                    // presenting a tree without them.
+                    self.report(err);
                     continue;
                 }
             };
@@ -213,6 +247,29 @@ impl IndexHunkIter {
                 return Some(entries);
             }
         }
+    }
+
+    /// Report a problem with the index to the monitor, or to the log if there is no monitor.
+    fn report(&self, err: Error) {
+        match &self.monitor {
+            Some(monitor) => monitor.error(err),
+            None => error!("{err}"),
+        }
+    }
+
+    /// Send reports of missing or unreadable hunks to this monitor.
+    #[must_use]
+    pub fn with_monitor(self, monitor: Arc<dyn Monitor>) -> Self {
+        IndexHunkIter {
+            monitor: Some(monitor),
+            ..self
+        }
+    }
+
+    /// One more than the number of the last hunk seen so far: the number of hunks that
+    /// have been accounted for, whether present or reported missing.
+    pub fn hunks_accounted_for(&self) -> u32 {
+        self.next_expected
     }
 
     /// Collect the contents of the iterator into a vector of hunks, each of which
